@@ -451,6 +451,9 @@ def _co(env, s, d, sloc=None, dloc=None, top=False) -> Co:  # noqa: C901, PLR091
             found.append(Co(YES, _as_is, rule="subclass"))
     elif s == ANY and d == OBJECT:
         found.append(Co(UNSPEC, rule="Any as a source"))
+    elif s == ("Tuple",) and d == OBJECT:
+        # Tuple[()] has no arguments left: whether "excluding generics" still applies to it is not said
+        found.append(Co(UNSPEC, rule="Tuple[()] as a subclass of object"))
     elif s[0] == "Literal" and d[0] in _CLASS_ORDER.get(type(s[1]).__name__, ()):
         found.append(Co(UNSPEC, rule="Literal member as instance of its class"))
 
